@@ -135,10 +135,36 @@ func verifAllNodes(n *yaml.Node, out *[]*yaml.Node) {
 // sequence elements, sections) a node of symbolic kind/tag with representative
 // text replaces the original; parser and (with rules) every in-process rule
 // must not panic.
-func HarnessC01Sweep(rules bool, deep bool) {
+func HarnessC01Sweep(rules bool, deep bool) { verifC01Sweep(rules, deep, false) }
+
+// HarnessC01SweepMatrix: the same with all rules, restricted to the node
+// positions below strategy.matrix (raw values: nested sequences and mappings).
+func HarnessC01SweepMatrix() { verifC01Sweep(true, false, true) }
+
+func verifFindKey(n *yaml.Node, key string) *yaml.Node {
+	if n.Kind == yaml.MappingNode {
+		for k := 0; k+1 < len(n.Content); k += 2 {
+			if n.Content[k].Value == key {
+				return n.Content[k+1]
+			}
+		}
+	}
+	for _, c := range n.Content {
+		if r := verifFindKey(c, key); r != nil {
+			return r
+		}
+	}
+	return nil
+}
+
+func verifC01Sweep(rules bool, deep bool, matrixOnly bool) {
 	doc, _ := verifFullSkeletonSites()
 	var nodes []*yaml.Node
-	verifAllNodes(doc.Content[0], &nodes)
+	if matrixOnly {
+		verifAllNodes(verifFindKey(doc.Content[0], "matrix"), &nodes)
+	} else {
+		verifAllNodes(doc.Content[0], &nodes)
+	}
 	target := nodes[verifChoose("node", len(nodes))]
 	vals := []string{"x", "nan"}
 	if deep {
